@@ -84,14 +84,13 @@ func (r *crashRecorder) install() func() {
 		MkDir:      func(p string) error { e := old.MkDir(p); r.at("mkDir " + rel(p)); return e },
 		EncodeToml: func(p string, v interface{}) error { e := old.EncodeToml(p, v); r.at("encodeToml " + rel(p)); return e },
 	})
-	kv.VerifOnCompactJobDone(func(target kv.Family, isRollup bool, err error) {
-		if isRollup {
-			r.at(fmt.Sprintf("rollup job committed in target family %s (err=%v)", target.Name(), err))
-		}
-	})
-	return func() {
-		kv.VerifSetSeams(old)
-		kv.VerifOnCompactJobDone(nil)
+	return func() { kv.VerifSetSeams(old) }
+}
+
+// jobDone is installed as the world's job observer: crash point right after a rollup job's commit in a target family.
+func (r *crashRecorder) jobDone(target kv.Family, isRollup bool, err error) {
+	if isRollup {
+		r.at(fmt.Sprintf("rollup job committed in target family %s (err=%v)", target.Name(), err))
 	}
 }
 
@@ -115,6 +114,7 @@ func runCrashCase(rep *vevid.Report, f *vevid.Flags, c *Case) {
 		vevid.Fatal("open engine: %v", err)
 	}
 	rec.w = w
+	w.jobObserver = rec.jobDone
 	okHistory := true
 	for i, st := range c.Steps {
 		var err error
